@@ -31,6 +31,8 @@ def run(rep, tier):
     propagation(rep, F)
     delegation(rep, F)
     self_intersection(rep, F)
+    from . import c05
+    c05.winding_table(rep, F, rule="R14.7")
 
 
 def defaults(rep, F):
@@ -58,6 +60,31 @@ def nxt_uids(s):
     return re.findall(r"#(\d+) as Some\)", s)
 
 
+
+def enumerate_sources(rep, key, fn, paths):
+    """every enumerate() that supplies a ring / member index is applied to the complete sequence (its index is the position the error names):
+    an adaptor that drops items in front of it (filter, skip_while, ...) shifts the indices"""
+    from ..memberfold import subterms
+    from ..symex import bare
+    bad = None
+    n = 0
+    seen = set()
+    for p in paths[:4000]:
+        for t, _ in p.pc:
+            for s in subterms(t, []):
+                if s and s[0] == "call" and s[1].rsplit("::", 1)[-1] == "enumerate" and s not in seen:
+                    seen.add(s)
+                    n += 1
+                    arg = bare(s[2][0]) if s[2] else ""
+                    if re.match(r"^(filter|filter_map|skip_while|take_while|step_by|flat_map|flatten|rev|skip)\(", arg):
+                        bad = arg
+    if bad:
+        rep.bad("R14.2", key + ":index-source:enumerate", "an index comes from enumerate() applied to %s: items are dropped before they are numbered, so the index is not the ring's / member's "
+                "position and a later skip(index + 1) pairs a ring with itself or names the wrong ring" % bad[:120], where=fn.loc())
+    elif n:
+        rep.ok("R14.2", key + ":enumerate-over-all[%d]" % n)
+
+
 def polygon_table(rep, F):
     rep.rule("R14.2", "each InvalidPolygon value is built under the true edge of its own check on the ring(s) it names; indices and rings come from the same enumerate() item")
     rep.rule("R14.3", "ring tests use the stated constants: hole not is_contains in the shell-polygon; (B,I)=1 shell/hole and (B,B)=1 hole/hole are line contacts; (I,I)=2 is an area overlap")
@@ -69,6 +96,7 @@ def polygon_table(rep, F):
         rep.bad("R14.2", "polygon:unanalysable", str(e))
         return
     rets = [p for p in paths if p.kind == "ret"]
+    enumerate_sources(rep, "polygon", fn, rets)
     seen = {}
     problems = {}
     spec = {
@@ -174,6 +202,7 @@ def multipolygon_table(rep, F):
         rep.bad("R14.2", "multipolygon:unanalysable", str(e))
         return
     rets = [p for p in paths if p.kind == "ret"]
+    enumerate_sources(rep, "multipolygon", fn, rets)
     spec = {
         "ElementsOverlaps": (r"get\(.*CoordPos::Inside\(\), CoordPos::Inside\(\)\).*Dimensions::TwoDimensional", 1),
         "ElementsTouchOnALine": (r"get\(.*CoordPos::OnBoundary\(\), CoordPos::OnBoundary\(\)\).*Dimensions::OneDimensional", 1),
